@@ -128,6 +128,29 @@ pub fn c20(out: &mut Vec<String>, rng: &mut Rng, tier: &str) {
             }
         }
     }
+    // states standing for 2^31 .. 2^33 observations, reached by repeated `s + s`
+    for doublings in [31usize, 32, 33] {
+        let conf = crate::gen::rand_conf(rng);
+        for kind in ["arith", "geo", "unpaired"] {
+            let mut toks: Vec<String> = vec!["E".into(), "x".into(), "1".into()];
+            toks.extend(obs_tokens_pub::<f64>(kind, rng, 1.0));
+            if kind == "unpaired" {
+                toks[3] = "A".into();
+                toks.push("a".into());
+                toks.push("B".into());
+                toks.push(crate::prog_ops::fenc_pub::<f64>(0.75));
+            }
+            for _ in 0..doublings {
+                toks.push("d".into());
+                toks.push("p".into());
+            }
+            out.push(match kind {
+                "arith" => ser_state_toks::<f64, Arithmetic<f64>>(kind, conf, rng, toks),
+                "geo" => ser_state_toks::<f64, Geometric<f64>>(kind, conf, rng, toks),
+                _ => ser_state_toks::<f64, Unpaired<f64>>(kind, conf, rng, toks),
+            });
+        }
+    }
     for i in 0..reps {
         let conf = crate::gen::rand_conf(rng);
         let m = if i % 8 == 0 { 150 } else { 30 };
